@@ -29,10 +29,18 @@ structure St where
   localSet : List WP := []       -- the worker's `pathset`
   failW : List String := []
   failU : List String := []
+  named : List (String × Nat) := []   -- how many paths the injected notify error of a failing name carries (absent: none)
   hooks : List (String × Cfg) := []   -- one-shot: fires inside the next watch/unwatch call on that name
   log : List String := []
   errs : Nat := 0
   deriving Repr
+
+/-- `notify_multi_path_errors`: one runtime error per path the notify error names, and one (naming the configured path)
+    when it names none -/
+def errNOf (named : List (String × Nat)) (name : String) : Nat :=
+  match named.find? (·.1 == name) with
+  | some (_, k) => if k = 0 then 1 else k
+  | none => 1
 
 def wpStr (w : WP) : String := w.name ++ (if w.recursive then "+" else "-")
 def kindStr : Kind → String | .native => "N" | .poll => "P"
@@ -55,7 +63,7 @@ def doUnwatch (s : St) (p : WP) : St :=
   match s.watcher with
   | some (k, reg) =>
     if s.failU.contains p.name || !(reg.any (·.name == p.name)) then
-      { s with errs := s.errs + 1 }
+      { s with errs := s.errs + errNOf s.named p.name }
     else { s with watcher := some (k, regRemove reg p.name), localSet := s.localSet.filter (· != p) }
   | none => s
 
@@ -65,7 +73,7 @@ def doWatch (s : St) (p : WP) : St :=
   let s := fire s p.name
   match s.watcher with
   | some (k, reg) =>
-    if s.failW.contains p.name then { s with errs := s.errs + 1 }
+    if s.failW.contains p.name then { s with errs := s.errs + errNOf s.named p.name }
     else { s with watcher := some (k, regRemove reg p.name ++ [p]),
                   localSet := if s.localSet.contains p then s.localSet else s.localSet ++ [p] }
   | none => s
